@@ -368,6 +368,81 @@ def coordpos_functions(repo, outdir):
     write(os.path.join(outdir, "CoordPosGen.lean"), "\n".join(out))
     return len(jobs)
 
+# ---------------------------------------------------------------------------------------------
+# `HasDimensions` from geo/src/algorithm/dimensions.rs (and `LineString::is_closed` from geo-types)
+
+DIMS = "geo/src/algorithm/dimensions.rs"
+DIM_PATHS = {"Dimensions::Empty": "Dim.empty", "Dimensions::ZeroDimensional": "Dim.zero", "Dimensions::OneDimensional": "Dim.one",
+             "Dimensions::TwoDimensional": "Dim.two", "Collinear": "Ori.col"}
+
+def dim_hdr(bounds, ty, fn, ret):
+    return r"impl<C: %s> HasDimensions for %s<C> \{.*?fn %s\(&self\) -> %s \{" % (bounds, ty, fn, ret)
+
+def dims_jobs():
+    D = {"ret_type": "Dim"}
+    B = {"ret_type": "Bool"}
+    # `unreachable!()` arms (a dimension that the type cannot have): the job picks `Empty`, as the hand-written model does;
+    # the arm is dead code (dims of these types is never the excluded value), a panic there would be seen by the harness
+    U = {"unreachable": "Dim.empty"}
+    ls_acc = dict(VEC_ACC, is_closed="(lineStringIsClosed {})", dimensions="(lineStringDimensions {})")
+    return [
+        # (file, header, Lean name, params, ret, funcs, subst, resub, opts)
+        ("geo-types/src/geometry/line_string.rs", r"pub fn is_closed\(&self\) -> bool \{", "lineStringIsClosed", "(cs : List Pt)", "Bool",
+         {}, [("self.1", "cs")], [], dict(B, accessors=VEC_ACC)),
+        (DIMS, dim_hdr("CoordNum", "Line", "dimensions", "Dimensions"), "lineDimensions", "(s e : Pt)", "Dim", {},
+         [("self.start", "s"), ("self.end", "e")], [], D),
+        (DIMS, dim_hdr("CoordNum", "Line", "boundary_dimensions", "Dimensions"), "lineBoundaryDimensions", "(s e : Pt)", "Dim", {},
+         [("self.start", "s"), ("self.end", "e")], [], D),
+        (DIMS, dim_hdr("CoordNum", "LineString", "is_empty", "bool"), "lineStringIsEmpty", "(cs : List Pt)", "Bool", {},
+         [("self.1", "cs")], [], dict(B, accessors=VEC_ACC)),
+        (DIMS, dim_hdr("CoordNum", "LineString", "dimensions", "Dimensions"), "lineStringDimensions", "(cs : List Pt)", "Dim",
+         {".any": "({0}.any {1})"}, [("self.1", "cs")], [], dict(D, accessors=VEC_ACC)),
+        (DIMS, dim_hdr("CoordNum", "LineString", "boundary_dimensions", "Dimensions"), "lineStringBoundaryDimensions", "(cs : List Pt)", "Dim",
+         {}, [("self", "cs")], [], dict(D, accessors=ls_acc, **U)),
+        (DIMS, dim_hdr("CoordNum", "Polygon", "is_empty", "bool"), "polygonIsEmpty", "(poly : Poly)", "Bool", {},
+         [("self", "poly")], [], dict(B, accessors={"exterior": "{}.ext", "is_empty": "(lineStringIsEmpty {})"})),
+        # `exterior_coords_iter()` = the coordinates of the exterior ring in order (geo/src/algorithm/coords_iter.rs)
+        (DIMS, dim_hdr("CoordNum", "Polygon", "dimensions", "Dimensions"), "polygonDimensions", "(poly : Poly)", "Dim", {},
+         [("self", "poly")], [], dict(D, accessors={"exterior_coords_iter": "{}.ext"}, mut_types={"coords": "List Pt"})),
+        (DIMS, dim_hdr("CoordNum", "Polygon", "boundary_dimensions", "Dimensions"), "polygonBoundaryDimensions", "(poly : Poly)", "Dim", {},
+         [("self", "poly")], [], dict(D, accessors={"dimensions": "(polygonDimensions {})"})),
+        (DIMS, dim_hdr("CoordNum", "MultiLineString", "dimensions", "Dimensions"), "multiLineStringDimensions", "(ls : List (List Pt))", "Dim", {},
+         [("self.1", "ls")], [], dict(D, accessors={"dimensions": "(lineStringDimensions {})"}, mut_types={"max": "Dim"}, **U)),
+        (DIMS, dim_hdr("CoordNum", "MultiPolygon", "dimensions", "Dimensions"), "multiPolygonDimensions", "(ps : List Poly)", "Dim",
+         # `Ord::max` on the derive(Ord) enum = the later declared variant
+         {".max": "(Dim.max {0} {1})"}, [("self", "ps")], [],
+         dict(D, accessors={"dimensions": "(polygonDimensions {})"}, mut_types={"max": "Dim"})),
+        (DIMS, dim_hdr("CoordNum", "Rect", "dimensions", "Dimensions"), "rectDimensions", "(mn mx : Pt)", "Dim", {},
+         [("self.min", "mn"), ("self.max", "mx")], [], dict(D, accessors={"min": "{}.min", "max": "{}.max"})),
+        (DIMS, dim_hdr("CoordNum", "Rect", "boundary_dimensions", "Dimensions"), "rectBoundaryDimensions", "(mn mx : Pt)", "Dim", {},
+         [("self", "mn mx")], [], dict(D, accessors={"dimensions": "(rectDimensions {})"}, **U)),
+        (DIMS, dim_hdr("GeoNum", "Triangle", "dimensions", "Dimensions"), "triangleDimensions", "(a b c : Pt)", "Dim",
+         {"C::Ker::orient2d": "Geo.orient"}, [("self.1", "a"), ("self.2", "b"), ("self.3", "c")], [], D),
+        (DIMS, dim_hdr("GeoNum", "Triangle", "boundary_dimensions", "Dimensions"), "triangleBoundaryDimensions", "(a b c : Pt)", "Dim", {},
+         [("self", "a b c")], [], dict(D, accessors={"dimensions": "(triangleDimensions {})"}, **U)),
+    ]
+
+def dims_functions(repo, outdir):
+    """Gen/DimsGen.lean: `HasDimensions` impl bodies (is_empty / dimensions / boundary_dimensions)."""
+    import rsexpr
+    out = ["/- generated by translator/rs2lean.py (rsexpr, statement fragment) from %s; do not edit -/" % DIMS,
+           "import GeoModel.Locate", "import GeoModel.TRANPrelude", "",
+           "namespace Geo.Gen", "open Geo", "set_option linter.unusedVariables false", ""]
+    cache = {}
+    jobs = dims_jobs()
+    for (rel, hdr, name, params, ret, funcs, subst, resub, opts) in jobs:
+        if rel not in cache:
+            cache[rel] = strip_comments(open(os.path.join(repo, rel)).read())
+        try:
+            term = rsexpr.translate_fn(cache[rel], hdr, DIM_PATHS, funcs, subst, resub=resub, opts=opts)
+        except rsexpr.TranslateError as e:
+            die("%s (%s): %s" % (name, rel, e))
+        out.append("/-- `%s` — %s -/" % (name, rel))
+        out.append("def %s %s : %s :=\n%s\n" % (name, params, ret, term))
+    out += ["end Geo.Gen", ""]
+    write(os.path.join(outdir, "DimsGen.lean"), "\n".join(out))
+    return len(jobs)
+
 ENDPT = {"p.start": "p1", "p.end": "p2", "q.start": "q1", "q.end": "q2"}
 
 def collinear_table(repo, outdir):
@@ -470,7 +545,8 @@ def main():
     nr = rect_functions(repo, outdir)
     ni = interp_functions(repo, outdir)
     nc = coordpos_functions(repo, outdir)
-    print("rs2lean: wrote Masks.lean (%d predicates), Enums.lean (%d op rules), CollinearTable.lean (%d rows), Kernel.lean (%d functions), AffineGen.lean (%d functions), RectGen.lean (%d functions), InterpGen.lean (%d functions), CoordPosGen.lean (%d functions)" % (len(fns), len(pairs), rows, nk, na, nr, ni, nc))
+    nd = dims_functions(repo, outdir)
+    print("rs2lean: wrote Masks.lean (%d predicates), Enums.lean (%d op rules), CollinearTable.lean (%d rows), Kernel.lean (%d functions), AffineGen.lean (%d functions), RectGen.lean (%d functions), InterpGen.lean (%d functions), CoordPosGen.lean (%d functions), DimsGen.lean (%d functions)" % (len(fns), len(pairs), rows, nk, na, nr, ni, nc, nd))
 
 if __name__ == "__main__":
     main()
